@@ -245,7 +245,7 @@ func TestVerif_C02(t *testing.T) {
 	res.assume("loopback UDP delivers datagrams of one socket pair in order (responses are counted between heartbeat barriers)")
 	res.assume("heartbeat sequence numbers 0x700000-0x7FFFFF are reserved for the barrier and not used for requests under test")
 	res.assume("UE address allocation is requested on the downlink PDR (Created-PDR count is not judged when only an uplink PDR asks for it)")
-	nh := vEnv.pick(260, 12000)
+	nh := vEnv.pick(1000, 12000)
 	var agents [2]*vAgent
 	defer func() {
 		for _, a := range agents {
